@@ -5,6 +5,7 @@ import (
 	"fmt"
 	"sort"
 	"strings"
+	"syscall"
 	"time"
 
 	"github.com/olareg/olareg"
@@ -26,6 +27,9 @@ type CrashSpec struct {
 	Histories [][]int
 	ModelJSON func(w *World) string // serialise the model after an operation
 	Recover   func(w *World, before, after string, interrupted string) []Violation
+	// Faults: additionally, every mutating call returns an I/O error instead (the process lives on and finishes the
+	// request, then dies at the request boundary); the same recovery oracle runs after the reopen.
+	Faults bool
 }
 
 type CrashCheck struct {
@@ -59,6 +63,7 @@ type crashArg struct {
 type crashOut struct {
 	Points   int         `json:"points"`   // mutating calls of the history
 	Images   int         `json:"images"`   // crash images examined
+	Faulted  int         `json:"faulted"`  // runs with an injected I/O error
 	Distinct int         `json:"distinct"` // distinct recovered states (tree hashes)
 	Viol     []Violation `json:"viol,omitempty"`
 	Sample   []string    `json:"sample,omitempty"`
@@ -157,6 +162,32 @@ func (sp *CrashSpec) runHistory(hi int, only []int, verbose bool) crashOut {
 					}
 				}
 			}
+		}
+		// (only inside the last request of the history: the set of histories is prefix closed, an error inside an earlier
+		// request is the last request of a shorter history)
+		if sp.Faults && plan.opOf[k-1] == len(sp.Histories[hi])-1 && (only == nil || (len(only) > 2 && only[2] == 1 && only[0] == k)) {
+			vs, tree, trace := sp.faultOnce(hi, plan, k, verbose)
+			out.Faulted++
+			states[tree] = true
+			for _, v := range vs {
+				v.Conf = sp.Name
+				v.History = sp.histNames(hi)
+				if v.Extra == nil {
+					v.Extra = map[string]any{}
+				}
+				v.Extra["crash_before_call"] = k
+				v.Extra["cut"] = -1
+				v.Extra["fault"] = 1
+				v.Extra["call"] = fmt.Sprintf("%s %s", op.Kind, op.Path)
+				v.Extra["hist"] = hi
+				out.Viol = append(out.Viol, v)
+			}
+			if verbose {
+				out.Trace = append(out.Trace, trace...)
+			}
+		}
+		if len(only) > 2 && only[2] == 1 {
+			continue
 		}
 		for _, cut := range cuts {
 			if only != nil && (only[0] != k || only[1] != cut) {
@@ -257,6 +288,73 @@ func (sp *CrashSpec) crashOnce(hi int, plan crashPlan, k, cut int, verbose bool)
 	return viol, tree, w.Trace
 }
 
+// faultOnce re-runs the history on a fresh directory with mutating call k failing (EIO); the interrupted request runs to
+// its end, the process dies at the request boundary, a new server opens the directory and the recovery oracle runs.
+func (sp *CrashSpec) faultOnce(hi int, plan crashPlan, k int, verbose bool) (viol []Violation, tree string, trace []string) {
+	w := NewWorld(sp.Conf, sp.RC)
+	defer w.Destroy()
+	w.Verbose = verbose
+	if sp.Init != nil {
+		sp.Init(w)
+	}
+	base := vos.MutCount()
+	vos.FailAt(base+k, syscall.EIO)
+	pos := plan.opOf[k-1]
+	hung := false
+	func() {
+		defer func() {
+			if p := recover(); p != nil {
+				if !vrt.IsAbort(p) {
+					panic(p)
+				}
+				hung = true
+			}
+		}()
+		for i, opk := range sp.Histories[hi] {
+			if i > pos {
+				break
+			}
+			sp.Ops[opk].Do(w)
+			vrt.Quiesce()
+		}
+	}()
+	interrupted := sp.Ops[sp.Histories[hi][pos]].Name
+	if hung {
+		sig, detail := AbortSignature()
+		return []Violation{V("no-hang-after-io-error", "after-io-error:hang:"+sig, "after an I/O error at mutating call %d inside %q the registry never returns: %s", k, interrupted, detail)}, "", w.Trace
+	}
+	for _, v := range w.AutoViol {
+		if strings.HasPrefix(v.Sig, "panic") {
+			v.Sig = "after-io-error:" + v.Sig
+			viol = append(viol, v)
+		}
+	}
+	// the process dies at the request boundary: unwind, close descriptors, keep the directory
+	func() {
+		defer func() { _ = recover() }()
+		vrt.Abort(vrt.AbortCrash)
+	}()
+	vos.CloseAllOpen()
+	now := vrt.NowNanos()
+	vrt.Reset(sp.RC)
+	vos.Reset(true)
+	vrt.SetClock(now + int64(time.Second))
+	w.S = olareg.New(w.Cfg)
+	w.Dead = ""
+	w.AutoViol = nil
+	vrt.Quiesce()
+	if verbose {
+		w.Trace = append(w.Trace, fmt.Sprintf("== I/O ERROR at mutating call %d inside %q; request finished, process killed, reopened", k, interrupted))
+	}
+	for _, v := range sp.Recover(w, plan.snaps[pos], plan.snaps[pos+1], interrupted) {
+		v.Sig = "after-io-error:" + v.Sig
+		viol = append(viol, v)
+	}
+	viol = append(viol, w.AutoViol...)
+	tree = HashStr(DumpTree(w.Dir))
+	return viol, tree, w.Trace
+}
+
 // RunCrash is the coordinator of a CRASH check.
 func RunCrash(id, tier string) int {
 	c := CrashChecks[id]
@@ -294,7 +392,7 @@ func RunCrashInto(rep *Report, id, tier string) {
 			}
 			res = res[:len(res)-1]
 		}
-		skipped, points, images, distinct := 0, 0, 0, 0
+		skipped, points, images, distinct, faulted := 0, 0, 0, 0, 0
 		for hi, jr := range res {
 			if IsSkipped(jr) {
 				skipped++
@@ -312,7 +410,8 @@ func RunCrashInto(rep *Report, id, tier string) {
 				continue
 			}
 			points += co.Points
-			images += co.Images
+			images += co.Images + co.Faulted
+			faulted += co.Faulted
 			distinct += co.Distinct
 			for _, v := range co.Viol {
 				rep.AddViolation(v)
@@ -329,7 +428,7 @@ func RunCrashInto(rep *Report, id, tier string) {
 		rep.Trans += points
 		rep.States += distinct
 		rep.NonTrivial += distinct
-		rep.Parts = append(rep.Parts, map[string]any{"spec": sp.Name, "histories": len(sp.Histories), "crash_points": points, "crash_images": images, "distinct_recovered_trees": distinct})
+		rep.Parts = append(rep.Parts, map[string]any{"spec": sp.Name, "histories": len(sp.Histories), "crash_points": points, "crash_images": images - faulted, "io_error_runs": faulted, "distinct_recovered_trees": distinct})
 	}
 	var names []string
 	if len(specs) > 0 {
@@ -358,7 +457,11 @@ func ReplayCrash(id, tier string, v Violation) int {
 		}
 		k, _ := v.Extra["crash_before_call"].(float64)
 		cut, _ := v.Extra["cut"].(float64)
-		out := sp.runHistory(hi, []int{int(k), int(cut)}, true)
+		mode := 0
+		if x, ok := v.Extra["fault"].(float64); ok && x == 1 {
+			mode = 1
+		}
+		out := sp.runHistory(hi, []int{int(k), int(cut), mode}, true)
 		for _, l := range out.Trace {
 			fmt.Println(l)
 		}
